@@ -515,6 +515,40 @@ theorem executed_final (st : HState) (ops : List HOp) (hi : Inv st) (hs : seqRun
     obtain ⟨hinv, hex⟩ := hstep_inv st op hi hs.1
     exact ih _ hinv hs.2 (hex k hk)
 
+/-- **per-operation guarantee, for every state and every history (no sequentiality needed):** a delivery only marks
+    executable records pending, a retry only releases pending records, a timed-out / lost session overwrites no executed
+    record. Hence an `executed` record can only ever be touched by the recording of an execution's outcome. -/
+theorem hstep_stepOk (st : HState) (op : HOp) (n : Nat) : stepOk op st.m (hstep true st op).2.m n = true := by
+  unfold stepOk
+  rw [List.all_eq_true]
+  intro k _
+  cases op with
+  | deliver ks f =>
+    by_cases hh : st.held = true
+    · simp [hstep, hh]
+    · have hp := C03.forExec_preserves ⟨st.m, f⟩ ks k
+      simp only [hstep, hh, Bool.false_eq_true, if_false]
+      rcases hfe : forExec ⟨st.m, f⟩ ks with ⟨o, s'⟩
+      rw [hfe] at hp
+      cases o <;> (
+        simp only
+        rcases hp with h | ⟨h1, h2⟩
+        · simp [h]
+        · simp [h1, h2])
+  | outcome id ok f => simp
+  | lost id =>
+    simp only [hstep]
+    by_cases h : lookup st.m k = Status.executed <;> simp [h]
+  | retry ds res dest f =>
+    have hm := (filterBy_spec (isMatch res dest) ⟨st.m, f⟩ ds).2.2.1 k
+    simp only [hstep, filterDeposits]
+    rcases hfb : filterBy (isMatch res dest) ⟨st.m, f⟩ ds with ⟨o, s'⟩
+    rw [hfb] at hm
+    simp only at hm ⊢
+    rcases hm with h | ⟨h1, h2, _⟩
+    · simp [h]
+    · simp [h1, h2]
+
 /-- a delivery selects only proposals whose record is missing or failed at that moment — never one that is in
     flight (pending) or executed (the per-step form the driver evaluates on the implementation's trace) -/
 theorem deliver_selects_only_executable (st : HState) (ks : List Nat) (f : List Bool) (ps : List Nat)
